@@ -10,8 +10,9 @@ import vlib
 PROP = "C01"
 TRUSTED = [
     "Model/RRule.lean is a hand transcription of rrule.__init__, _iterinfo.rebuild, the day/time sets, the BY filter, "
-    "BYSETPOS selection, emission and the period advance of rrule._iter; tied to /repo by the rrule.construct / rrule.iter "
-    "correspondence ops on every run (normalised state, yielded prefix and terminal status / exception kind)",
+    "BYSETPOS selection, emission and the period advance of rrule._iter; tied to /repo by the rrule.construct / rrule.iter / "
+    "rrule.orig correspondence ops on every run (normalised state, _original_rule = the kwargs replace() passes again, yielded "
+    "prefix and terminal status / exception kind)",
     "the month / month-day / negative month-day / weekday / range tables are dumped from the imported module on every run "
     "(Generated/Tables.lean); the table theorems are re-checked against Base/Calendar.lean by the build",
     "Spec/RRule.lean (periodIndex, byOk, cand, sel, occ; written from the RFC text with calendar functions only) is the "
@@ -349,6 +350,24 @@ def impl_rule_dump(r):
                      "-" if ts is None else vlib.ilist([x for t in ts for x in (t.hour, t.minute, t.second)])])
 
 
+def impl_orig_dump(c, r):
+    """the keyword arguments rrule.replace() (no overrides) would pass, in the 17-token wire form"""
+    o = r._original_rule
+    def ol(k):
+        v = o.get(k)
+        return "-" if v is None else vlib.ilist(list(v))
+    wd = o.get("byweekday")
+    ds = r._dtstart
+    u = r._until
+    return " ".join([str(r._freq), str(r._interval), str(r._wkst), vlib.oint(r._count),
+                     "-" if u is None else ("-" if c.get("until") is None else vlib.ilist(c["until"])),
+                     vlib.ilist([ds.year, ds.month, ds.day, ds.hour, ds.minute, ds.second, ds.microsecond]),
+                     str({"date": 0, "naive": 0, "aware1": 1, "aware2": 2, "aware3": 3}[c["kind"]]),
+                     ol("bysetpos"), ol("bymonth"), ol("bymonthday"), ol("byyearday"), ol("byeaster"), ol("byweekno"),
+                     "-" if wd is None else vlib.ilist([x for w in wd for x in (w.weekday, w.n or 0)]),
+                     ol("byhour"), ol("byminute"), ol("bysecond")])
+
+
 # ---------------------------------------------------------------------------------- correspondence
 
 def gen_cases(ctx, tag, n, malformed_rate=0.0, freqs=None):
@@ -370,12 +389,13 @@ def split_resp(resp):
 
 def correspondence(ctx):
     basecorr.run(ctx)
-    cases = list(WITNESS_CASES) + gen_cases(ctx, "corr", ctx.budget(380, 5000), malformed_rate=0.15)
+    cases = list(WITNESS_CASES) + gen_cases(ctx, "corr", ctx.budget(300, 5000), malformed_rate=0.15)
     reqs_c = ["rrule.construct " + wire(c) for c in cases]
     reqs_i = ["rrule.iter %s %d %d" % (wire(c), c["n"], FUEL[c["freq"]]) for c in cases]
     got_c = ctx.driver(reqs_c)
     got_i = ctx.driver(reqs_i)
-    for c, gc, gi in zip(cases, got_c, got_i):
+    got_o = ctx.driver(["rrule.orig " + wire(c) for c in cases])
+    for c, gc, gi, go in zip(cases, got_c, got_i, got_o):
         st, items, r = run_impl(c, c["n"])
         ctx.traces += 1
         # normalised state
@@ -387,6 +407,12 @@ def correspondence(ctx):
             ctx.mismatch("rrule.construct", wire(c), impl_c, gc)
             ctx.count("corr_construct_diff")
             continue
+        if r is not None:
+            io = "ok " + impl_orig_dump(c, r)
+            if io != go:
+                ctx.mismatch("rrule.orig (_original_rule / replace() kwargs)", wire(c), io, go)
+            else:
+                ctx.count("corr_original_rule_ok")
         mst, mitems = split_resp(gi)
         iitems = [item(x) for x in items]
         ctx.count("corr_status_" + st.split("_")[0])
@@ -507,7 +533,7 @@ def oracle(ctx):
         evaluate(ctx, sw[i:i + 1000])
         if len(unknown_violations(ctx)) >= 3:
             break
-    rng_cases = gen_cases(ctx, "oracle", ctx.budget(500, 6500))
+    rng_cases = gen_cases(ctx, "oracle", ctx.budget(400, 6500))
     for i in range(0, len(rng_cases), 500):
         evaluate(ctx, rng_cases[i:i + 500])
         if len(unknown_violations(ctx)) >= 3:
